@@ -357,6 +357,12 @@ def stars (i : Nat) : String := String.ofList (List.replicate i '*')
 /-- the environment key of field `f` of element `i` of the object list at `path` -/
 def ikey (path : String) (i : Nat) (f : String) : String := "#" ++ stars i ++ "#" ++ path ++ f
 
+/-- `k in d` for a dict attribute with constant keys: the key's environment value is `KeyError` when the key is absent -/
+def haskey (v : V) : V :=
+  match v with
+  | .exc n => if n = "KeyError" then .bool false else .exc n
+  | _ => .bool true
+
 /-- `xs.append(x)` on a local list of strings (the translation rebinds the local) -/
 def append_ (xs x : V) : V :=
   match xs, x with
